@@ -239,6 +239,10 @@ verify_legacy = fn('anoncreds_verify_presentation', [C.c_size_t, C.c_size_t, Ffi
 verify_w3c = fn('anoncreds_verify_w3c_presentation', [C.c_size_t, C.c_size_t, FfiList, FfiList, FfiList, FfiList, FfiList, FfiList, FfiList, FfiList, C.POINTER(C.c_int8)])
 
 
+class OverrideEntry(C.Structure):
+    _fields_ = [('rev_reg_def_id', C.c_char_p), ('requested_from_ts', C.c_int32), ('override_rev_status_list_ts', C.c_int32)]
+
+
 def ffi_verify(flow):
     made = []
     def mk(kind, obj):
@@ -257,7 +261,14 @@ def ffi_verify(flow):
         hl = [handlelist(x) for x in (sch, cds, rds, lists)]
         res = C.c_int8(-1)
         f = verify_w3c if flow['format'] == 'w3c' else verify_legacy
-        rc = f(ph, rh, hl[0][0], sids, hl[1][0], cids, hl[2][0], rids, hl[3][0], FfiList(0, None), C.byref(res))
+        ovr = ctx.get('override') or []
+        if ovr:
+            keep = [i.encode() for i, _, _ in ovr]
+            arr = (OverrideEntry * len(ovr))(*[OverrideEntry(keep[n], int(f_), int(t_)) for n, (_, f_, t_) in enumerate(ovr)])
+            ovl = FfiList(len(ovr), C.cast(arr, C.c_void_p))
+        else:
+            ovl = FfiList(0, None)
+        rc = f(ph, rh, hl[0][0], sids, hl[1][0], cids, hl[2][0], rids, hl[3][0], ovl, C.byref(res))
         if rc != 0:
             current_error(); return 'E'
         return 'T' if res.value == 1 else 'F'
